@@ -258,3 +258,29 @@ CHECKS["C15"] = {
         {"pkg": SERVER, "run": "^TestVerif_C15_Sessions$", "checks": {"quick": 600, "thorough": 60000}, "shards": {"thorough": 16}, "timeout": {"quick": 600}},
     ],
 }
+
+CHECKS["C17"] = {
+    "level": "exploration",
+    "technique": "schedule exploration through labelled schedule points (build tag verif): rapid-generated sets of bookkeeping operations overlapped at usage.firstLockHeld and rapid-generated connect/drop/upload/exhaust histories with a connection parked at dispatch.userResolved (synctest bubble); plus generated high-contention workloads without hooks; deadlock verdict from a stable goroutine dump (all operation goroutines parked in mutex acquisition), reachability oracle for live sessions",
+    "level_text": "Overlaps of the usage-collection step with commits, other collections, admissions and terminations are forced at the point between its two lock acquisitions, and plain contention of 2..12 goroutines running the periodic upload is added; every operation must complete. Histories of real handshakes in which a connection is parked between resolving its user and creating its session while that user's last session closes (or the user is exhausted) are generated; at every quiescent step each client that still holds a live connection must find its session under the user's single active record, and a user without a record has no live session.",
+    "level_note": "Wall-clock time is used only as patience (8 s) before the goroutine dump is inspected twice; a run that is slow but shows no stable lock cycle is reported as inconclusive (exit 2), never as a violation. Interleavings other than those through the two labelled points are sampled by contention only.",
+    "rule": "LockOrder: 1..4 other operations from {commit, collect, getuser, isactive, terminate} while a collection is parked; Contention: 2..12 goroutines x 200..3000 iterations; Orphan: 2..14 ops from {connect (optionally held), release, drop, upload, exhaust, topup} over 1..2 users; non-trivial (Orphan) = a held dispatch resumed after its user had been terminated; distinct = distinct scenarios.",
+    "assumptions": ["a goroutine dump that shows the same >=2 operation goroutines in sync.(*Mutex/RWMutex).Lock one second apart, after 8 s, is a lock cycle"],
+    "jobs": [
+        {"pkg": SERVER, "run": "^TestVerif_C17_LockOrder$", "checks": {"quick": 40, "thorough": 2000}, "shards": {"thorough": 8}, "timeout": {"quick": 900}},
+        {"pkg": SERVER, "run": "^TestVerif_C17_Contention$", "checks": {"quick": 12, "thorough": 600}, "shards": {"thorough": 2}, "timeout": {"quick": 900}},
+        {"pkg": SERVER, "run": "^TestVerif_C17_Orphan$", "checks": {"quick": 600, "thorough": 60000}, "shards": {"thorough": 16}, "timeout": {"quick": 900}},
+    ],
+}
+
+CHECKS["C16"] = {
+    "level": "exploration",
+    "technique": "rapid-generated histories (sessions of several limited users, traffic with generated echo ratios, usage collection/commit separately, together and two rounds at once, session closures incl. the last, top-ups, exhaustion, expiry, deletion through the admin API on a bolt-backed or in-memory manager) on real client sessions against dispatchConnection in a synctest bubble; oracle = stored credit vs. bytes counted by the network tap",
+    "level_text": "The tap on every client<->server connection gives, per user and direction, the exact number of application-data bytes carried after the handshake. At every quiescent step the credit deducted so far must not exceed that volume (never charged twice, never for another user or direction) and must not be negative; after a completed usage upload with traffic stopped and the user continuously active it must equal it in both directions, also after a second upload; users whose credit is <= 0, who expired or were deleted must have all sessions closed after the upload.",
+    "level_note": "Absolute credit writes (top-up, exhaustion) are applied right after a flush of pending usage so that the additive bookkeeping formula is well defined; schedules inside a step are the Go runtime's.",
+    "rule": "rapid draws 1..3 users, bolt or in-memory manager, 3..20 ops; traffic 1..70001 bytes with echo fraction 0, 30/255, 128/255 or 1; non-trivial = a collection and a commit (two upload rounds) overlapped in one step; distinct = distinct scenarios.",
+    "assumptions": ["the tap sees every byte written to the client<->server connections"],
+    "jobs": [
+        {"pkg": SERVER, "run": "^TestVerif_C16_Usage$", "checks": {"quick": 400, "thorough": 40000}, "shards": {"thorough": 16}, "timeout": {"quick": 900}},
+    ],
+}
